@@ -43,7 +43,7 @@ type c17Case struct {
 	Churn     int      `json:"churn_us,omitempty"` // > 0: 30 incoming streams reach EOF in the victim's readers this many microseconds before .. after the cause
 }
 
-var c17Calls = []string{"read", "write", "accept", "acceptuni", "opensync", "openunisync", "rcvdgram"}
+var c17Calls = []string{"read", "write", "accept", "acceptuni", "opensync", "openunisync", "rcvdgram", "writesmall"}
 
 type c17Ret struct {
 	call string
@@ -450,6 +450,23 @@ func runC17(l *evlog.Log, c *evlog.Case, cs *c17Case) {
 			run(b, func() error { _, err := s1.Read(make([]byte, 10)); return err })
 		case "write":
 			run(b, func() error { _, err := s2.Write(make([]byte, 256<<10)); return err })
+		case "writesmall":
+			// a small Write that waits behind an already buffered small frame: the stream's window (4096 bytes)
+			// is used up, the next 1000 bytes are buffered without being sent, the last 1000 bytes do not fit
+			// into the same frame buffer and block
+			run(b, func() error {
+				if _, err := u1.Write(make([]byte, 4095)); err != nil {
+					return fmt.Errorf("setup write: %w", err)
+				}
+				if _, err := u1.Write(make([]byte, 1000)); err != nil {
+					return fmt.Errorf("setup write 2: %w", err)
+				}
+				n, err := u1.Write(make([]byte, 1000))
+				if err == nil {
+					return fmt.Errorf("verif: Write returned n=%d and no error", n)
+				}
+				return err
+			})
 		case "accept":
 			if cs.Transfer {
 				continue // the background transfer uses AcceptStream itself
